@@ -16,6 +16,7 @@ package analysis
 
 import (
 	"log"
+	"net/url"
 	"path"
 	"sort"
 	"strings"
@@ -747,7 +748,11 @@ func namePointers(opts *FlattenOpts) error {
 	}
 
 	for _, key := range depthFirst {
-		v := refsToReplace[key]
+		v, planned := refsToReplace[key]
+		if !planned {
+			// the holder of this pointer has been moved to a new definition, and rewritten there
+			continue
+		}
 		// update current replacement, which may have been updated by previous changes of deeper elements
 		result, erd := replace.DeepestRef(opts.Swagger(), opts.ExpandOpts(false), v.Ref)
 		if erd != nil {
@@ -841,8 +846,17 @@ func flattenAnonPointer(key string, v SchemaRef, refsToReplace map[string]Schema
 		}
 
 		// regular case: we named the $ref as a definition, and we move all callers to this new $ref
+		moved, _ := url.PathUnescape(v.Ref.String())
 		for _, caller := range callers {
 			if caller == key {
+				continue
+			}
+
+			if strings.HasPrefix(caller, moved+"/") {
+				// a caller held by the very schema which has just been moved to a definition: its key is gone,
+				// and the namer has rewritten that $ref where it now lives
+				delete(refsToReplace, caller)
+
 				continue
 			}
 
